@@ -264,6 +264,9 @@ macro_rules! cache_check {
             return result.clone();
         }
 
+        #[cfg(feature = "verif")]
+        crate::verif_hooks::bump(crate::verif_hooks::CACHE_MISS);
+
         // Return the cache key.
         cache_key
     }};
@@ -457,6 +460,9 @@ macro_rules! expect_token_0 {
                 _ => {}
             }
 
+            #[cfg(feature = "verif")]
+            crate::verif_hooks::bump(crate::verif_hooks::SCAN_STEP);
+
             next += 1;
         }
 
@@ -521,6 +527,9 @@ macro_rules! expect_token_1 {
                 }
                 _ => {}
             }
+
+            #[cfg(feature = "verif")]
+            crate::verif_hooks::bump(crate::verif_hooks::SCAN_STEP);
 
             next += 1;
         }
